@@ -44,7 +44,7 @@ class C05(ParamsProp):
     def corpus(self):
         return [dict(c) for c in CLAUSES] + super().corpus()
 
-    families = {"escapes_in_containers": 120, "many_refs": 60, "empty_segments": 30, "embedded_chain": 20, "odd_keys": 80, "colon_selectors": 30, "padded_refs": 150}
+    families = {"escapes_in_containers": 120, "many_refs": 60, "empty_segments": 30, "embedded_chain": 20, "odd_keys": 80, "colon_selectors": 30, "padded_refs": 150, "embedded_through_layers": 150}
 
     def base_cases(self, tier, seed):
         N = 1200 if tier == "quick" else 30000
